@@ -115,6 +115,128 @@ class _LateResultDomain(DefaultDomain):
         return value if isinstance(value, tuple) else ("raised", norm(stmt.exc)[:30])
 
 
+class _GuardDomain(DefaultDomain):
+    """The wrapper of not_reentrant over one boolean: "the guarded function is marked as running".
+    Whatever container keeps the mark (dict of booleans, set of functions, attribute), reads and
+    writes keyed by the guarded function are reads and writes of that boolean."""
+
+    def __init__(self, fn_param):
+        self.fn = fn_param
+
+    def _flag(self, st):
+        return st.get("flag", FALSE)
+
+    def load_attr(self, chain, st, fr):
+        if len(chain) == 1 and chain[0] == self.fn:
+            return ("the-function",)
+        if len(chain) == 1 and not st.has(fr.local(chain[0])):
+            # a closure / default-argument container: its only content that matters is the mark
+            return ("marks", self._flag(st))
+        return None
+
+    def compare(self, op, left, right):
+        if isinstance(op, (ast.In, ast.NotIn)) and left == ("the-function",) and isinstance(right, tuple) and right[:1] == ("marks",):
+            present = right[1] == TRUE
+            return "T" if present == isinstance(op, ast.In) else "F"
+        return None
+
+    def subscript(self, base, idx, st, fr):
+        if isinstance(base, tuple) and base[:1] == ("marks",) and idx == ("the-function",):
+            return base[1]
+        return None
+
+    def store_subscript(self, target, value, st, fr, interp):
+        if dotted(target.slice) == self.fn:
+            t = self.truth(value)
+            return st.set("flag", TRUE if t == "T" else FALSE if t == "F" else ("bool",))
+        return st
+
+    def delete(self, interp, target, st, fr):
+        if isinstance(target, ast.Subscript) and dotted(target.slice) == self.fn:
+            return st.set("flag", FALSE)
+        return st
+
+    def call(self, interp, call, st, fr):
+        d = dotted(call.func)
+        if d == self.fn:
+            n = min(st.get("ev.calls", 0) + 1, 2)
+            s2 = st.set("ev.calls", n).set("ev.flag_at_call", self._flag(st))
+            return [val(("the-result",), s2), exc(("user-exception",), s2)]
+        if d == "ReentryError":
+            return [val(("reentry",), st)]
+        if isinstance(call.func, ast.Attribute) and call.args and dotted(call.args[0]) == self.fn:
+            m = call.func.attr
+            if m == "get":
+                return [val(self._flag(st), st)]
+            if m == "add":
+                return [val(NONE, st.set("flag", TRUE))]
+            if m in ("discard", "remove", "pop"):
+                return [val(NONE, st.set("flag", FALSE))]
+            if m == "setdefault":
+                return [val(self._flag(st), st)]
+        return [val(TOP, st)]
+
+    def raised_value(self, stmt, value, st, fr):
+        return value if isinstance(value, tuple) else ("raised", norm(stmt.exc)[:30])
+
+
+def check_reentrancy_guard(ctx):
+    nr = module_function(ctx, SPINNER, "not_reentrant")
+    inner = [n for n in nr.body if isinstance(n, FUNC_TYPES)]
+    if len(inner) != 1:
+        raise AnalysisError("anchor vanished: not_reentrant no longer defines one inner wrapper")
+    dec = inner[0]
+    fn_param = nr.args.args[0].arg
+    D = f"{SPINNER}:not_reentrant.decorated"
+    dom = _GuardDomain(fn_param)
+
+    def go(flag):
+        it = Interp(dom, max_depth=3)
+        res = it.analyze(dec, {}, State([("flag", flag), ("ev.calls", 0)]), receiver=None, name="decorated")
+        ctx.stats["states"] += it.steps
+        ctx.analysed(dec)
+        return res
+
+    # first entry: the function runs exactly once, marked, and the mark is gone afterwards on every exit
+    res = go(FALSE)
+    problems = []
+    for r in res:
+        s_ = r.state
+        how = "returns" if r.kind == "val" else f"raises {r.value!r}"
+        if r.kind == "exc" and r.value == ("reentry",):
+            problems.append("a first call is refused")
+            continue
+        if s_.get("ev.calls", 0) != 1:
+            problems.append(f"the function is called {s_.get('ev.calls', 0)} times on a path that {how}")
+        elif s_.get("ev.flag_at_call") != TRUE:
+            problems.append("the function runs without being marked as running (a nested call would be admitted)")
+        if s_.get("flag") != FALSE:
+            problems.append(f"the mark is still set after the call {how}: every later call is refused")
+        if r.kind == "val" and r.value != ("the-result",):
+            problems.append("the function's result is not returned")
+    kinds = {r.kind for r in res}
+    if kinds != {"val", "exc"}:
+        problems.append("the function's exception does not propagate" if "exc" not in kinds else "no returning path")
+    ctx.check("R-REENTRANCY-FLAG", "first entry: marked while the function runs, unmarked after return and after an exception; result / exception passed through", dec,
+              not problems, "; ".join(sorted(set(problems))), examined=len(res), construct=f"{D}::first-entry")
+    # nested entry: refused, the function is not called, the outer call's mark survives
+    res = go(TRUE)
+    problems = []
+    for r in res:
+        s_ = r.state
+        if not (r.kind == "exc" and r.value == ("reentry",)):
+            problems.append("a nested call is not refused with ReentryError")
+        if s_.get("ev.calls", 0) != 0:
+            problems.append("the function runs although it is already running")
+        if s_.get("flag") != TRUE:
+            problems.append("refusing the nested call clears the mark of the call that is still running: the next nested call is admitted")
+    ctx.check("R-REENTRANCY-FLAG", "nested entry: ReentryError, function not called, the running call stays marked", dec,
+              bool(res) and not problems, "; ".join(sorted(set(problems))) or "no path explored", examined=len(res), construct=f"{D}::nested-entry")
+    ret = [r for r in nr.body if isinstance(r, ast.Return)]
+    ok = len(ret) == 1 and any(isinstance(n, ast.Name) and n.id == dec.name for n in ast.walk(ret[0]))
+    ctx.check("R-REENTRANCY-FLAG", "not_reentrant returns the wrapper", nr, ok, "the decorator does not return its guarding wrapper", construct=f"{SPINNER}:not_reentrant::returns-wrapper")
+
+
 def check_timeout_wins(ctx):
     spinner = ctx.classes.get(SPINNER, "Spinner")
     dom = _LateResultDomain(ctx.classes)
@@ -515,44 +637,7 @@ def run(ctx):
         "reactor.run() reachable without the function having been scheduled")
 
     # -- R-REENTRANCY-FLAG ---------------------------------------------------------------------------
-    nr = module_function(ctx, SPINNER, "not_reentrant")
-    inner = [n for n in nr.body if isinstance(n, FUNC_TYPES)]
-    if len(inner) != 1:
-        raise AnalysisError("anchor vanished: not_reentrant no longer defines one inner wrapper")
-    dec = inner[0]
-    dcfg = cfg_of(ctx, dec)
-    dlive = live_nodes(dcfg)
-    fn_param = nr.args.args[0].arg
-
-    def flag_store(n, value):
-        return (n.kind == "stmt" and isinstance(n.ast, ast.Assign) and isinstance(n.ast.value, ast.Constant)
-                and n.ast.value.value is value and any(isinstance(t, ast.Subscript) and dotted(t.slice) == fn_param for t in n.ast.targets))
-
-    sets = [n.id for n in dcfg.nodes if n.id in dlive and flag_store(n, True)]
-    clears = [n.id for n in dcfg.nodes if n.id in dlive and flag_store(n, False)]
-    calls = nodes_calling(dcfg, lambda c: dotted(c.func) == fn_param, dlive)
-    reraise = [n.id for n in dcfg.nodes if n.id in dlive and n.kind == "raise" and isinstance(n.ast, ast.Raise) and n.ast.exc is not None and "ReentryError" in norm(n.ast.exc)]
-    D = f"{SPINNER}:not_reentrant.decorated"
-    ok = len(sets) == 1 and len(calls) == 1 and bool(clears) and len(reraise) == 1
-    ctx.check("R-REENTRANCY-FLAG", "wrapper has test, set, call, clear", dec, ok, "not_reentrant wrapper lost its re-entry test / flag set / call / flag clear", construct=f"{D}::shape")
-    if ok:
-        rn = dcfg.nodes[reraise[0]].ast
-        guard = getattr(rn, "_parent", None)
-        gt = [n.id for n in dcfg.nodes if n.id in dlive and n.kind == "test" and n.ast is guard]
-        reads_flag = isinstance(guard, ast.If) and fn_param in norm(guard.test) and any(isinstance(x, ast.Name) and x.id == dotted(dcfg.nodes[sets[0]].ast.targets[0].value) for x in ast.walk(guard.test))
-        ctx.check("R-REENTRANCY-FLAG", "re-entry test reads the flag and dominates the set", dec,
-                  bool(gt) and reads_flag and dcfg.dominated_by(sets[0], set(gt)),
-                  "the flag can be set without the re-entry test having been evaluated on the same flag", construct=f"{D}::test-first")
-        ctx.check("R-REENTRANCY-FLAG", "flag set before the call", dec, dcfg.dominated_by(calls[0], set(sets)),
-                  "the wrapped function can run without the flag set", construct=f"{D}::set-before-call")
-        esc = dcfg.escape_path(dcfg.after(sets[0]), set(clears))
-        ctx.check("R-REENTRANCY-FLAG", "flag cleared on every path", dec, esc is None,
-                  "a path leaves the wrapper with the flag still set: every later call raises ReentryError",
-                  path=dcfg.describe_path(esc) if esc else None, construct=f"{D}::clear-always")
-        esc2 = dcfg.escape_path(dcfg.after(reraise[0], exclude=()), set(), targets=[dcfg.exit_raise])
-        cleared_on_refusal = any(c in dcfg.reach(dcfg.after(reraise[0], exclude=())) for c in clears)
-        ctx.check("R-REENTRANCY-FLAG", "refusal leaves the flag of the outer call set", dec, not cleared_on_refusal,
-                  "the re-entry refusal clears the flag of the call that is still running", construct=f"{D}::refusal-keeps-flag")
+    check_reentrancy_guard(ctx)
     decos = [dotted(d) for d in run_f.decorator_list]
     ctx.check("R-REENTRANCY-FLAG", "Spinner.run is decorated with not_reentrant", run_f, "not_reentrant" in decos,
               "Spinner.run lost its @not_reentrant decorator", construct=f"{Q}::decorator")
